@@ -118,10 +118,16 @@ def removeExtendor (w : World) (x : Reg) (p : Id) : Reg :=
 def clearCaches (x : Reg) : Reg := { x with cache := [], mcache := [], scache := [] }
 
 /-- `VerifyingBase.changed`: clear and re-snapshot the generations of `ro[1:]` -/
-def verifyingChanged (w : World) (r : Nat) : World :=
+def verifyingChangedBase (w : World) (r : Nat) : World :=
   let x := clearCaches (w.reg r)
   let vro := x.ro.drop 1
   w.setReg r { x with verifyRo := vro, verifyGen := vro.map fun b => (w.reg b).generation }
+
+/-- `VerifyingAdapterLookup.changed` (repaired twice): the registry's resolution order is re-derived from the current
+base graph on *every* change notification, its own included — `VerifyingBase.changed` takes a new generation
+snapshot, after which `_verify` can no longer see that an ancestor had been re-based -/
+def verifyingChanged (w : World) (r : Nat) : World :=
+  verifyingChangedBase (w.setReg r { w.reg r with ro := (roFull (fun b => (w.reg b).bases) (w.regs.length + 1) r).mro }) r
 
 /-- `BaseAdapterRegistry.changed` (+ `AdapterRegistry.changed` cascading into sub-registries) -/
 def changed : Nat → World → Nat → World
@@ -141,7 +147,7 @@ def regBases (w : World) : Bases := fun r => (w.reg r).bases
 def verifyAsIs (w : World) (r : Nat) : World :=
   if !w.verifying then w else
   let x := w.reg r
-  if (x.verifyRo.map fun b => (w.reg b).generation) != x.verifyGen then verifyingChanged w r else w
+  if (x.verifyRo.map fun b => (w.reg b).generation) != x.verifyGen then verifyingChangedBase w r else w
 
 /-- `VerifyingBase._verify` → `VerifyingAdapterLookup.changed(None)` (repaired): when the generation snapshot is
 out of date the registry's resolution order is re-derived from the current base graph before the re-snapshot -/
@@ -149,7 +155,7 @@ def verify (w : World) (r : Nat) : World :=
   if !w.verifying then w else
   let x := w.reg r
   if (x.verifyRo.map fun b => (w.reg b).generation) != x.verifyGen then
-    verifyingChanged (w.setReg r { x with ro := (roFull (regBases w) (w.regs.length + 1) r).mro }) r
+    verifyingChanged w r
   else w
 
 /-- `BaseAdapterRegistry._setBases` -/
